@@ -171,6 +171,29 @@ pub fn c09(ctx: &mut Ctx, acc: &mut Acc) -> i32 {
         let ops: Vec<Op> = (0..len).map(|_| *rng.pick(&options)).collect();
         one_stream(acc, &ops, &alpha, "random");
     }
+    // many distinct strings: ids that need two and three varint bytes (|id| >= 64, >= 8192)
+    let big: Vec<usize> = if ctx.thorough() { vec![70, 200, 8200, 8300] } else { vec![70, 8200] };
+    for (bi, n) in big.iter().enumerate() {
+        if bi % ctx.shards != ctx.shard {
+            continue;
+        }
+        let alpha_big: Vec<String> = (0..*n).map(|i| format!("s{i}")).collect();
+        let mut rng = ctx.rng_for(0xC09 ^ 0xB16, "big", *n as u64);
+        // introduce all strings, then cite them in a random order (some twice), mixed with plain writes
+        let mut ops: Vec<Op> = (0..*n).map(|s| Op { dedup: true, s }).collect();
+        for _ in 0..*n {
+            let s = rng.below(*n as u64) as usize;
+            ops.push(Op { dedup: !rng.chance(1, 10), s });
+        }
+        // the ids at the width boundaries, explicitly
+        for s in [62usize, 63, 64, 65, 8190, 8191, 8192, 8193] {
+            if s < *n {
+                ops.push(Op { dedup: true, s });
+            }
+        }
+        one_stream(acc, &ops, &alpha_big, "many_ids");
+        acc.max("largest_string_id_cited", *n as u64);
+    }
     // deduplicated strings inside tuples, sequences, v0 records and evolved records (with and without names in the header)
     let ids: Vec<String> = ctx.my_subjects(|s| s.ty().has_dedup()).iter().map(|s| s.id().to_string()).collect();
     let n = ctx.n(300, 5000);
